@@ -20,12 +20,15 @@ RULE = (
     "extension, plus every style through its own file extension: annotate three times with identical arguments. Then seeded "
     "histories (N = 2..5 identical runs) over copyright prefix, --year / --exclude-year / default year from the simulated clock, "
     "several holders and licences, contributors, --merge-copyrights, --skip-existing, --force-dot-license, custom and commented "
-    "templates; the clock advances between runs by seconds to months inside one calendar year. --no-replace is excluded (documented "
+    "templates, and headers longer than 4 KiB (60 holders); the clock advances between runs by seconds to months inside one calendar year. --no-replace is excluded (documented "
     "as additive). Non-trivial = at least two runs executed with exit 0; distinct = distinct plan digests"
 )
 EXPECTED_PROBES = ["annotate.write", "header.existing_header_merged", "header.shebang_kept", "annotate.skip_existing",
                    "annotate.force_dot_license_touch"]
 SHRINK_CONTENT = True
+
+
+LONG_HOLDERS = [f"Contributor Number {i:03d} of the Very Long Named Organisation <contributor{i:03d}@example.org>" for i in range(60)]
 
 
 def _case(seed, style, opts, bodykind, name, n, clocks, hashseed=0, extra_files=()):
@@ -54,6 +57,17 @@ def prelude_cases(tier, verif_seed):
         for bk in ("code", "comment"):
             opts = {"holders": ["Jane Doe", "ACME Corp."], "licenses": ["GPL-3.0-or-later"]}
             cases.append(_case(20_000 + n, style, opts, bk, "y" + G.STYLES[style][7], 3, clocks, hashseed=n % 8))
+            n += 1
+    # headers longer than the 4 KiB window in which the linter looks for tags
+    for style, multi in (("python", False), ("c", False), ("html", False), ("cpp", True), ("tex", False)):
+        for target in ("file", "dot-license"):
+            opts = {"holders": LONG_HOLDERS, "licenses": ["MIT", "Apache-2.0"]}
+            if multi:
+                opts["multi_line"] = True
+            if target == "dot-license":
+                opts["force_dot_license"] = True
+                opts.pop("multi_line", None)
+            cases.append(_case(20_000 + n, style, opts, "shebang" if style in ("python", "cpp") else "code", "z" + G.STYLES[style][7], 3, clocks, hashseed=n % 8))
             n += 1
     return cases
 
@@ -94,6 +108,8 @@ def gen_case(seed, tier, index=0):
         if not A.TEMPLATES[opts["template"]][2] and not (opts["holders"] or opts["licenses"]):
             # a template that renders no contributors needs something it does render, else the header carries no tag at all
             opts["holders"] = ["Jane Doe"]
+    if rng.chance(0.05):
+        opts["holders"] = LONG_HOLDERS[: rng.randint(45, 60)]
     if rng.chance(0.15):
         opts["merge_copyrights"] = True
     if rng.chance(0.1):
